@@ -2,19 +2,22 @@
 """Copy validated sub-agent mutants from /tmp/seedout into /verif/seeded/<prop>-m<k>/ (patch.diff rebased on the
 current /repo HEAD, demo.py, meta.json with what was run)."""
 import json, os, re, shutil, subprocess, sys
+SRC = sys.argv[1] if len(sys.argv) > 1 else '/tmp/seedout'
+TAG = sys.argv[2] if len(sys.argv) > 2 else 'm'
+WAVE = sys.argv[3] if len(sys.argv) > 3 else 'dev'
 val = {}
-for l in open('/tmp/seedout/validation.txt'):
-    m = re.match(r'(C\d\d)-m(\d) how=(\w+) import=(\d) demo_clean=(\d+) demo_mutant=(\d+) tests: passed=(\d+) stable_pass=(\d+) missing=(\d+)', l)
+for l in open(SRC + '/validation.txt'):
+    m = re.match(r'H?(C\d\d)-m(\d) how=(\w+) import=(\d) demo_clean=(\d+) demo_mutant=(\d+) tests: passed=(\d+) stable_pass=(\d+) missing=(\d+)', l)
     if m:
         val[(m.group(1), m.group(2))] = dict(how=m.group(3), demo_clean=int(m.group(5)), demo_mutant=int(m.group(6)),
                                              passed=int(m.group(7)), missing=int(m.group(9)))
 head = subprocess.check_output(['git', '-C', '/repo', 'rev-parse', '--short', 'HEAD'], text=True).strip()
 n = 0
 for (p, k), v in sorted(val.items()):
-    sd = '/tmp/seedout/%s/m%s' % (p, k)
+    sd = SRC + '/%s/m%s' % (p, k)
     if not (v['demo_clean'] == 0 and v['demo_mutant'] == 1 and v['missing'] == 0):
         print('SKIP', p, k, v); continue
-    dst = '/verif/seeded/%s-m%s' % (p, k)
+    dst = '/verif/seeded/%s-%s%s' % (p, TAG, k)
     os.makedirs(dst, exist_ok=True)
     shutil.copy(sd + '/patch.rebased.diff', dst + '/patch.diff')
     shutil.copy(sd + '/demo.py', dst + '/demo.py')
@@ -25,7 +28,7 @@ for (p, k), v in sorted(val.items()):
     old = {}
     if os.path.exists(dst + '/meta.json'):
         old = json.load(open(dst + '/meta.json'))
-    meta.update(dict(property=p, origin='independent sub-agent given only the property text and a scratch worktree',
+    meta.update(dict(property=p, wave=WAVE, origin='independent sub-agent given only the property text and a scratch worktree',
                      validated=dict(repo_head=head, patch_applied_with='git ' + v['how'],
                                     demo_exit_clean=v['demo_clean'], demo_exit_mutant=v['demo_mutant'],
                                     pinned_suite='%d tests pass with the patch; all 145 stable_pass tests still pass' % v['passed'],
